@@ -26,11 +26,12 @@ make -k -j14 check > check.log 2>&1
 grep '^# \(TOTAL\|PASS\|FAIL\|ERROR\)' check.log >> "$log"
 pass=$(grep '^# PASS' check.log | awk '{print $3}')
 echo "== without change" >> "$log"
-git stash -q -- src
+# (no `git stash`: the stash is shared by all worktrees of a repository)
+git checkout -- src
 make -j12 > build.log 2>&1; echo "make rc=$?" >> "$log"
 $CXX >> "$log" 2>&1
 timeout 300 ./deliver/demo > deliver/demo.without.out 2>&1; without_rc=$?
 echo "demo WITHOUT change rc=$without_rc" >> "$log"
-git stash pop -q
+git apply deliver/patch.confirmed.diff
 make -j12 > build.log 2>&1
 echo "RESULT with_rc=$with_rc without_rc=$without_rc pass=$pass" | tee -a "$log"
